@@ -160,6 +160,7 @@ class Twin:
         def is_fresh(o):
             return id(o) not in pre_ids
 
+        rt._SAME_HOOK[0] = same
         ns["__same__"] = same
         ns["__old__"] = old
         ns["is_fresh"] = is_fresh
